@@ -33,6 +33,7 @@ REQUIRED_REACH = ["variance", "std_dev_is_sqrt", "std_err", "moe_is_z_times_se",
                   "class:pair=MRxMR", "class:pair=ARRxCAT"]
 BATCH = 40
 Z = 1.959964
+ROOT_ATOL = 1e-7
 
 
 def units(tier, seed):
@@ -54,6 +55,8 @@ def make_case(unit):
     if ins != "none":
         cases.attach_insertions(g, facets, transforms, allow_diff=(ins == "diff"),
                                 disjoint=True, hide_some=False)
+    if wmode == "float" and g.chance(0.85):
+        cases.add_total_subtotals(facets, transforms)
     spec = sim.CubeSpec(facets, g.weights(N, wmode),
                         ("mean",) if "numarr" in template else ())
     return {"template": template, "spec": sim.spec_to_dict(spec), "transforms": transforms,
@@ -132,7 +135,9 @@ def _slice(res, L, t, part, positive):
         ok, det = cmp.same(np.where(m, gva, 0), np.where(m, var, 0), rtol=1e-9, atol=1e-12)
         res.check("variance", ok, "slice/%s_proportion_variances" % name, det)
         gsea = np.asarray(gse.value, dtype=float)
-        ok, det = cmp.same(np.where(m, gsea, 0), np.where(m, se, 0), rtol=1e-9, atol=1e-12)
+        # a square root turns a last-bit variance (1e-16 with weights that are not exactly
+        # representable) into 1e-8: absolute tolerance on the root, tight one on the variance
+        ok, det = cmp.same(np.where(m, gsea, 0), np.where(m, se, 0), rtol=1e-9, atol=ROOT_ATOL)
         res.check("std_err", ok, "slice/%s_std_err" % name, det)
         # intrinsic relations and sign
         with np.errstate(invalid="ignore"):
@@ -141,7 +146,7 @@ def _slice(res, L, t, part, positive):
         ok, det = cmp.same(gmoe.value, Z * gsea)
         res.check("moe_is_z_times_se", ok, "slice/%s_proportions_moe" % name, det)
         fin = ~np.isnan(gva)
-        res.check("non_negative", bool(np.all(gva[fin] >= -1e-15)
+        res.check("non_negative", bool(np.all(gva[fin] >= 0)
                                        and np.all(gsea[~np.isnan(gsea)] >= 0)),
                   "slice/%s/negative" % name, {"var": gva.tolist()})
 
@@ -191,5 +196,6 @@ def _strand(res, L, part, positive):
         if g.shape != e.shape:
             res.check("strand", False, "strand/%s/shape" % attr, {"got": list(g.shape)})
             continue
-        ok, det = cmp.same(np.where(skip, 0, g), np.where(skip, 0, e), rtol=1e-9, atol=1e-12)
+        ok, det = cmp.same(np.where(skip, 0, g), np.where(skip, 0, e), rtol=1e-9,
+                           atol=ROOT_ATOL)
         res.check("strand", ok, "strand/%s" % attr, det)
